@@ -355,7 +355,7 @@ Theorem gpt_placement mac pe id po gs gh pt pd p1 p2 p3 sd s1 s2 s3 y0 ext cnt i
   let fu := if mac then 48 else 34 in
   iso + ih_padlen (hy_ih y) iso = N * 512 /\
   g_header (hy_pri y) = mk_ghdr 1 (N - 1) fu (N - 34) pd (if mac then 16 else 2) 128 128 /\
-  g_header (hy_sec y) = mk_ghdr (N - 1) 1 fu (N - 34) sd (N - 33) 128 128 /\
+  g_header (hy_sec y) = mk_ghdr (N - 1) 1 fu (N - 34) pd (N - 33) 128 128 /\
   secondary_write_offset (hy_sec y) = (N - 33) * 512 /\
   (forall b, gpt_record (hy_sec y) = Some b ->
      zlen b = 33 * 512 /\ secondary_write_offset (hy_sec y) + zlen b = iso + ih_padlen (hy_ih y) iso) /\
@@ -373,19 +373,19 @@ Proof.
   assert (HN : iso + pad = (iso + pad) / 512 * 512) by lia.
   assert (HS : (iso + pad - 512) / 512 = (iso + pad) / 512 - 1) by lia.
   rewrite HS. unfold padded_sectors.
-  destruct mac; cbn [gpt_new g_parts parts_update_efi app]; intros H1; apply some_inv in H1; subst y;
+  destruct mac; cbn [gpt_new g_parts parts_update_efi copy_part_guids app]; intros H1; apply some_inv in H1; subst y;
     cbn [hy_ih hy_pri hy_sec g_header g_primary g_parts g_apm];
     change (ih_padlen (ih_set_efi h ext cnt) iso) with pad; fold pad;
     set (N := (iso + pad) / 512) in *; clearbody N; clearbody pad;
     (split; [exact HN|]);
-    do 2 (split; [cbv [gpt_new g_header ghdr_new ghdr_set_pe_lba ghdr_set_lbas ghdr_set_last_usable_lba
+    do 2 (split; [cbv [gpt_new g_header ghdr_new ghdr_set_pe_lba ghdr_set_lbas ghdr_set_last_usable_lba ghdr_set_disk_guid
                       gh_current_lba gh_backup_lba gh_first_usable gh_last_usable gh_disk_guid gh_pe_lba
                       gh_num_parts gh_size_pe];
                  f_equal; try reflexivity; unfold GPT_SIZE, APM_PARTS; lia|]);
-    (split; [cbv [secondary_write_offset gpt_new g_header ghdr_new ghdr_set_pe_lba ghdr_set_lbas
+    (split; [cbv [secondary_write_offset gpt_new g_header ghdr_new ghdr_set_pe_lba ghdr_set_lbas ghdr_set_disk_guid
                   ghdr_set_last_usable_lba gh_current_lba gh_num_parts]; lia|]).
   all: split; [intros b Hb; apply gpt_record_length in Hb;
-               cbv [secondary_write_offset gpt_new g_primary g_header g_parts g_apm ghdr_new ghdr_set_pe_lba
+               cbv [secondary_write_offset gpt_new g_primary g_header g_parts g_apm ghdr_new ghdr_set_pe_lba ghdr_set_disk_guid
                     ghdr_set_lbas ghdr_set_last_usable_lba gh_current_lba gh_num_parts app] in Hb |- *;
                unfold zlen in Hb at 2 3; cbn [length] in Hb; lia|].
   all: split; [intros b Hb; unfold hy_record in Hb; cbn [hy_ih hy_pri] in Hb;
@@ -397,8 +397,113 @@ Proof.
                     ghdr_set_lbas ghdr_set_last_usable_lba gh_current_lba gh_num_parts app andb] in Eg;
                rewrite zlen_app, Eg; pose proof (mbr_length _ _ _ Em) as Lm; unfold zlen; rewrite Lm;
                cbn [length]; lia|].
-  all: cbv [secondary_write_offset gpt_new g_header ghdr_new ghdr_set_pe_lba ghdr_set_lbas
+  all: cbv [secondary_write_offset gpt_new g_header ghdr_new ghdr_set_pe_lba ghdr_set_lbas ghdr_set_disk_guid
             ghdr_set_last_usable_lba gh_current_lba gh_num_parts]; split; lia.
+Qed.
+
+(* ---- the backup GPT mirrors the primary one (repair "the backup GPT carries the GUIDs of the
+   primary GPT": new() copies disk_guid and every part_guid from the primary to the secondary) ---- *)
+Definition gpt_mirror (p s : gpt) : Prop :=
+  g_primary p = true /\ g_primary s = false /\ g_parts s = g_parts p /\
+  g_header s = mk_ghdr (gh_backup_lba (g_header p)) (gh_current_lba (g_header p))
+                       (gh_first_usable (g_header p)) (gh_last_usable (g_header p))
+                       (gh_disk_guid (g_header p)) (gh_backup_lba (g_header p) - 32)
+                       (gh_num_parts (g_header p)) (gh_size_pe (g_header p)).
+
+(* what a mirror pair records: same used-entry bytes, same array CRC field, and the same
+   num_parts * 128 byte entry array (the tail of the primary record, the head of the backup record) *)
+Lemma gpt_mirror_records p s : gpt_mirror p s ->
+  gpt_part_data s = gpt_part_data p /\
+  forall bp bs, gpt_record p = Some bp -> gpt_record s = Some bs ->
+    slice 88 92 (gpt_hdr_of s bs) = slice 88 92 (gpt_hdr_of p bp) /\
+    let n := (length bs - 512)%nat in firstn n bs = skipn (length bp - n) bp.
+Proof.
+  intros (Pp & Ps & Hparts & Hh).
+  assert (Hd : gpt_part_data s = gpt_part_data p) by (unfold gpt_part_data; rewrite Hparts; reflexivity).
+  split; [exact Hd|]. intros bp bs Rp Rs.
+  destruct (gpt_record_crc _ _ Rp) as (pd & Ep & _ & Cp & _).
+  destruct (gpt_record_crc _ _ Rs) as (pd' & Es & _ & Cs & _).
+  rewrite Hd, Ep in Es. apply some_inv in Es. subst pd'. split; [rewrite Cp, Cs; reflexivity|].
+  destruct (gpt_record_inv _ _ Rp) as (d1 & h1 & E1 & _ & _ & L1 & B1).
+  destruct (gpt_record_inv _ _ Rs) as (d2 & h2 & E2 & _ & _ & L2 & B2).
+  rewrite Ep in E1. apply some_inv in E1. subst d1.
+  rewrite Hd, Ep in E2. apply some_inv in E2. subst d2.
+  rewrite Pp in B1. rewrite Ps in B2. destruct B1 as (apms & _ & _ & ->). subst bs.
+  assert (He : gpt_empty_parts s = gpt_empty_parts p).
+  { unfold gpt_empty_parts. rewrite Hparts, Hh. reflexivity. }
+  rewrite He. cbv zeta.
+  replace (length (pd ++ gpt_empty_parts p ++ h2) - 512)%nat with (length (pd ++ gpt_empty_parts p))
+    by (rewrite !app_length, L2; lia).
+  rewrite (app_assoc pd), firstn_length_app.
+  rewrite (app_assoc h1), (app_assoc (h1 ++ _)).
+  apply eq_sym, skipn_app_exact. rewrite (app_length ((h1 ++ apm_hole p) ++ apms)). lia.
+Qed.
+
+Theorem gpt_backup_mirrors_primary mac pe id po gs gh pt pg sg y0 ext cnt iso y :
+  hy_new true mac pe id po gs gh pt pg sg = Some y0 -> hy_update_efi y0 ext cnt iso = Some y ->
+  let P := g_header (hy_pri y) in let S := g_header (hy_sec y) in
+  g_parts (hy_sec y) = g_parts (hy_pri y) /\
+  (* header: only current/backup LBA (swapped) and partition_entries_lba differ *)
+  gh_current_lba S = gh_backup_lba P /\ gh_backup_lba S = gh_current_lba P /\ gh_current_lba P = 1 /\
+  gh_pe_lba S = gh_backup_lba P - 32 /\ gh_pe_lba P = (if mac then 16 else 2) /\
+  gh_first_usable S = gh_first_usable P /\ gh_last_usable S = gh_last_usable P /\
+  gh_disk_guid S = gh_disk_guid P /\ gh_num_parts S = gh_num_parts P /\ gh_size_pe S = gh_size_pe P /\
+  gpt_mirror (hy_pri y) (hy_sec y) /\
+  (* recorded bytes *)
+  gpt_part_data (hy_sec y) = gpt_part_data (hy_pri y) /\
+  forall bp bs, gpt_record (hy_pri y) = Some bp -> gpt_record (hy_sec y) = Some bs ->
+    slice 88 92 (gpt_hdr_of (hy_sec y) bs) = slice 88 92 (gpt_hdr_of (hy_pri y) bp) /\
+    let n := (length bs - 512)%nat in n = (128 * 128)%nat /\ firstn n bs = skipn (length bp - n) bp.
+Proof.
+  destruct pg as [[[pd p1] p2] p3]. destruct sg as [[[sd s1] s2] s3].
+  unfold hy_new. destruct (ih_new true mac pe id po gs gh pt) as [h|] eqn:En; [|discriminate].
+  destruct (ih_new_inv _ _ _ _ _ _ _ _ _ En) as (Hefi & _).
+  intros H0; apply some_inv in H0; subst y0. unfold hy_update_efi. cbn [hy_ih hy_pri hy_sec].
+  rewrite Hefi. cbn [negb]. cbv zeta.
+  assert (M : forall y', Some y' = Some y -> gpt_mirror (hy_pri y') (hy_sec y') ->
+              gh_current_lba (g_header (hy_pri y')) = 1 ->
+              gh_pe_lba (g_header (hy_pri y')) = (if mac then 16 else 2) ->
+              gh_num_parts (g_header (hy_pri y')) = 128 -> (length (g_parts (hy_pri y')) <= 128)%nat ->
+    let P := g_header (hy_pri y) in let S := g_header (hy_sec y) in
+    g_parts (hy_sec y) = g_parts (hy_pri y) /\
+    gh_current_lba S = gh_backup_lba P /\ gh_backup_lba S = gh_current_lba P /\ gh_current_lba P = 1 /\
+    gh_pe_lba S = gh_backup_lba P - 32 /\ gh_pe_lba P = (if mac then 16 else 2) /\
+    gh_first_usable S = gh_first_usable P /\ gh_last_usable S = gh_last_usable P /\
+    gh_disk_guid S = gh_disk_guid P /\ gh_num_parts S = gh_num_parts P /\ gh_size_pe S = gh_size_pe P /\
+    gpt_mirror (hy_pri y) (hy_sec y) /\
+    gpt_part_data (hy_sec y) = gpt_part_data (hy_pri y) /\
+    forall bp bs, gpt_record (hy_pri y) = Some bp -> gpt_record (hy_sec y) = Some bs ->
+      slice 88 92 (gpt_hdr_of (hy_sec y) bs) = slice 88 92 (gpt_hdr_of (hy_pri y) bp) /\
+      let n := (length bs - 512)%nat in n = (128 * 128)%nat /\ firstn n bs = skipn (length bp - n) bp).
+  { intros y' E Hm H1 H2 H3 H4. apply some_inv in E. subst y'. cbv zeta.
+    pose proof Hm as (_ & Ps & Hparts & Hh). rewrite Hh.
+    cbn [gh_current_lba gh_backup_lba gh_first_usable gh_last_usable gh_disk_guid gh_pe_lba gh_num_parts gh_size_pe].
+    repeat (split; [first [reflexivity | assumption]|]).
+    destruct (gpt_mirror_records _ _ Hm) as [Hd Hr]. split; [exact Hd|].
+    intros bp bs Rp Rs. destruct (Hr _ _ Rp Rs) as [C A]. split; [exact C|]. cbv zeta in A.
+    split; [|exact A].
+    pose proof (gpt_record_length _ _ Rs) as Ls. rewrite Ps, Hparts, Hh in Ls.
+    cbn [gh_num_parts] in Ls. rewrite H3 in Ls. unfold zlen in Ls. lia. }
+  destruct mac; cbn [gpt_new g_parts parts_update_efi copy_part_guids app]; intros H1; apply (M _ H1);
+    try reflexivity; try (cbn [hy_pri g_parts length]; lia);
+    (split; [reflexivity|]); (split; [reflexivity|]); (split; [reflexivity|]);
+    cbv [hy_pri hy_sec gpt_new g_header ghdr_new ghdr_set_pe_lba ghdr_set_lbas ghdr_set_last_usable_lba
+         ghdr_set_disk_guid gh_current_lba gh_backup_lba gh_first_usable gh_last_usable gh_disk_guid
+         gh_pe_lba gh_num_parts gh_size_pe];
+    f_equal; lia.
+Qed.
+
+(* update_mac (which updates parts[2] of both GPTs) preserves the mirror *)
+Theorem gpt_backup_mirrors_primary_mac y ext cnt y' :
+  gpt_mirror (hy_pri y) (hy_sec y) -> hy_update_mac y ext cnt = Some y' ->
+  gpt_mirror (hy_pri y') (hy_sec y') /\ g_parts (hy_sec y') = g_parts (hy_pri y') /\
+  g_header (hy_pri y') = g_header (hy_pri y) /\ g_header (hy_sec y') = g_header (hy_sec y).
+Proof.
+  intros (Pp & Ps & Hparts & Hh). unfold hy_update_mac. destruct (negb (ih_mac (hy_ih y))); [discriminate|].
+  cbv zeta. rewrite Hparts.
+  destruct (parts_update_mac (g_parts (hy_pri y)) (ext * 4) (ext * 4 + cnt - 1)) as [pp|]; [|discriminate].
+  intros H; apply some_inv in H; subst y'. cbn [hy_pri hy_sec g_primary g_parts g_header].
+  repeat split; assumption.
 Qed.
 
 (* REFUTED wish "the backup GPT never overlaps the primary structures / the ISO data":
@@ -471,5 +576,7 @@ Print Assumptions gpt_record_length.
 Print Assumptions gpt_parts_crc_over_used_entries_only.
 Print Assumptions gpt_new_fails_uefi_array_crc.
 Print Assumptions gpt_placement.
+Print Assumptions gpt_backup_mirrors_primary.
+Print Assumptions gpt_backup_mirrors_primary_mac.
 Print Assumptions backup_gpt_overlap_refuted.
 Print Assumptions gpt_record_example.
